@@ -4,7 +4,7 @@
 (* TRACE_FILE is one observed execution of RewritingContext.apply(); every *)
 (* step of this spec consumes one line and prints its verdict.             *)
 (***************************************************************************)
-EXTENDS G1Whole, Json, IOUtils, TLC, TLCExt
+EXTENDS G1Batch, Json, IOUtils, TLC, TLCExt
 
 Traces == ndJsonDeserialize(IOEnv.TRACE_FILE)
 VARIABLE tid
@@ -44,7 +44,14 @@ Clauses(X, K) ==
         <<"C05_Serializes", dom, C05_Serializes(t)>>,
         <<"C05_FailIsTheFault", dom /\ t.fault > 0 /\ t.fault <= t.ninv, C05_FailIsTheFault(t)>>,
         <<"C05_FailCfgObject", dom /\ t.exc # "", C05_FailCfgObject(t)>>,
-        <<"C05_FailNoStranded", dom /\ t.exc # "", C05_FailNoStranded(t)>> >>
+        <<"C05_FailNoStranded", dom /\ t.exc # "", C05_FailNoStranded(t)>>,
+        <<"C09_OrderCoherent", dom /\ HasSteps(t), C09_OrderCoherent(t)>>,
+        <<"C09_FnCoherent", dom /\ HasSteps(t), C09_FnCoherent(t)>>,
+        <<"C09_RetCoherent", dom /\ HasSteps(t), C09_RetCoherent(t)>>,
+        <<"C09_RefCoherent", dom /\ HasSteps(t), C09_RefCoherent(t)>>,
+        <<"C09_DirectView", dom /\ HasSteps(t), C09_DirectView(t)>>,
+        <<"C09_SameOutcome", dom /\ HasSeq(t) /\ t.fault = 0, C09_SameOutcome(t)>>,
+        <<"C09_BatchEqSeq", IF done /\ HasSeq(t) THEN t.exc2 = "" ELSE FALSE, C09_BatchEqSeq(X)>> >>
 
 Diff(name, X, K) ==
   CASE name = "C01_Bytes" -> C01_Diff(X)
@@ -68,6 +75,13 @@ Diff(name, X, K) ==
     [] name = "C01_Completes" -> <<X.t.exc, X.t.stage>>
     [] name = "C03_Completes" -> <<X.t.exc, X.t.stage>>
     [] name = "C05_Completes" -> <<X.t.exc, X.t.stage>>
+    [] name = "C09_BatchEqSeq" -> FactDiff(AllFacts(X), AllFacts(Seq2(X)))
+    [] name = "C09_SameOutcome" -> <<X.t.exc, X.t.exc2>>
+    [] name = "C09_DirectView" -> DirectViewWitness(X.t)
+    [] name \in {"C09_OrderCoherent", "C09_FnCoherent", "C09_RetCoherent", "C09_RefCoherent"} ->
+         SelectSeq(X.t.steps, LAMBDA st : st.ordc # st.ordt \/ st.fnc # st.fnt \/ st.retc # st.rett \/ ~st.cfg_is_cache
+                                          \/ \E j \in DOMAIN st.refc : st.refc[j][2] = 0 - 1
+                                                 \/ (st.refd[j][2] # 0 /\ st.refd[j] # st.refc[j]))
     [] name = "C05_Closed" -> <<ObsStale(X.t.post), SelectSeq(X.t.whole.aux, LAMBDA a : a.stale # 0),
                                  SelectSeq(X.t.post.syms, LAMBDA y : y.k \in {"stale", "stale_proxy"})>>
     [] name = "C05_Serializes" -> <<X.t.whole.ser_ok, X.t.whole.ser_err>>
@@ -83,7 +97,11 @@ Verdict(t) ==
       indom == SelectSeq(cs, LAMBDA c : c[2])
   IN  [id |-> t.id,
        indomain |-> [i \in 1..Len(indom) |-> indom[i][1]],
-       failed |-> [i \in 1..Len(bad) |-> [clause |-> bad[i][1], diff |-> Diff(bad[i][1], X, K), kf |-> KfTags(X, K, bad[i][1])]],
+       failed |-> [i \in 1..Len(bad) |-> [clause |-> bad[i][1], diff |-> Diff(bad[i][1], X, K), kf |-> IF bad[i][1] \in {"C09_DirectView", "C09_SameOutcome"}
+                      THEN (IF KF_C09_1(X) /\ (bad[i][1] = "C09_DirectView" \/ X.t.exc = "UnsupportedAssemblyError")
+                            THEN {"KF-C09-1"} ELSE {})
+                      ELSE IF bad[i][1] = "C09_BatchEqSeq" THEN KfBatch(X, K)
+                      ELSE KfTags(X, K, bad[i][1])]],
        exc |-> t.exc]
 
 Init == tid = 1
